@@ -419,6 +419,8 @@ impl Acct {
                 if !*processed {
                     if h.message == Message::TurnUndead {
                         self.death(&mut acts, k);
+                        // a renewed instance goes back online right away if it knows active members
+                        self.adjust_conn();
                     }
                 } else {
                     for u in &view.members {
@@ -428,6 +430,7 @@ impl Acct {
                     acts.push(Act::Custom);
                     if self.conn == Conn::Active && h.message == Message::TurnUndead {
                         self.death(&mut acts, k);
+                        self.adjust_conn();
                     }
                 }
             }
